@@ -107,6 +107,7 @@ pub fn run(tier: Tier) -> ! {
     pool.extend(crate::c01::sparse_large_window_family());
     pool.extend(crate::c06::scale_tag_family(tier.pick(5000, 70000)));
     pool.extend(crate::c01::many_entries_family(tier));
+    pool.extend(crate::c01::nonbmp_family().into_iter().map(|b| (b.desc, b.spec)));
     // F7 again with texts longer than twice its windows (the far end of a long weight vector is used only there)
     {
         let f7 = crate::c01::sparse_large_window_family();
